@@ -960,3 +960,110 @@ Lemma handle_smtp_scn_ends s c :
 Proof.
   intros Es; unfold handle; rewrite Es. split; [apply handle_smtp_ends, fuel_for_ok|apply handle_smtp_res].
 Qed.
+
+(* ------------------------------------------------------------------ *)
+(* idle deadlines waited out by the line-loop handlers (dummy, ftp): at most one *)
+
+Definition tmo (b : brd) : N := m_timeouts (c_m (b_c b)).
+Definition is_tmo (e : rerr) : N := match e with ETimeout => 1 | _ => 0 end.
+
+Lemma fill_loop_timeouts i buf c buf' e c' :
+  fill_loop i buf c = (buf', e, c') ->
+  m_timeouts (c_m c') = (m_timeouts (c_m c) + is_tmo e)%N.
+Proof.
+  revert buf c; induction i as [|i IH]; intros buf c; cbn [fill_loop].
+  - intros H; inversion H; subst; cbn; lia.
+  - destruct (cread c (BUFSZ - length buf)) as [[d e0] c1] eqn:E.
+    pose proof (cread_timeouts _ _ _ _ _ E) as Ht.
+    destruct e0; try (intros H; inversion H; subst; cbn [is_tmo]; lia).
+    destruct d; [intros H; apply IH in H; lia|intros H; inversion H; subst; cbn [is_tmo]; lia].
+Qed.
+
+Lemma fill_timeouts b :
+  b_err b = ENone ->
+  tmo (fill b) = (tmo b + is_tmo (b_err (fill b)))%N.
+Proof.
+  intros Hb; unfold fill, tmo. destruct (fill_loop MAX_EMPTY (b_buf b) (b_c b)) as [[buf e] c] eqn:E.
+  apply fill_loop_timeouts in E. cbn [b_c b_err]. rewrite Hb. destruct e; cbn [is_tmo] in *; lia.
+Qed.
+
+Lemma read_slice_timeouts fuel delim b line e b' :
+  b_err b = ENone -> read_slice fuel delim b = RsOk line e b' ->
+  tmo b' = (tmo b + is_tmo e)%N /\ b_err b' = ENone.
+Proof.
+  revert b; induction fuel as [|f IH]; intros b Hb; cbn [read_slice]; [congruence|].
+  destruct (find_idx delim (b_buf b)) as [i|] eqn:Ef.
+  - intros H; inversion H; subst; unfold tmo; cbn [b_c b_err is_tmo]; split; [lia|exact Hb].
+  - rewrite Hb. destruct (BUFSZ <=? length (b_buf b))%nat.
+    + intros H; inversion H; subst; unfold tmo; cbn [b_c b_err is_tmo]; split; [lia|reflexivity].
+    + pose proof (fill_timeouts b Hb) as Ft.
+      destruct (fill_spec b) as (_ & _ & _ & F4 & _).
+      destruct (b_err (fill b)) eqn:Ee.
+      * intros H; apply IH in H; [|exact Ee]. cbn [is_tmo] in Ft. destruct H; split; [lia|assumption].
+      * destruct f; cbn [read_slice]; [congruence|].
+        rewrite (F4 Hb ltac:(congruence)), Ef, Ee.
+        intros H; inversion H; subst; unfold tmo in *; cbn [b_c b_err is_tmo] in *; split; [lia|reflexivity].
+      * destruct f; cbn [read_slice]; [congruence|].
+        rewrite (F4 Hb ltac:(congruence)), Ef, Ee.
+        intros H; inversion H; subst; unfold tmo in *; cbn [b_c b_err is_tmo] in *; split; [lia|reflexivity].
+      * destruct f; cbn [read_slice]; [congruence|].
+        rewrite (F4 Hb ltac:(congruence)), Ef, Ee.
+        intros H; inversion H; subst; unfold tmo in *; cbn [b_c b_err is_tmo] in *; split; [lia|reflexivity].
+      * destruct f; cbn [read_slice]; [congruence|].
+        rewrite (F4 Hb ltac:(congruence)), Ef, Ee.
+        intros H; inversion H; subst; unfold tmo in *; cbn [b_c b_err is_tmo] in *; split; [lia|reflexivity].
+Qed.
+
+Lemma read_bytes_timeouts fuel delim acc b line e b' :
+  b_err b = ENone -> read_bytes fuel delim acc b = RsOk line e b' ->
+  tmo b' = (tmo b + is_tmo e)%N /\ b_err b' = ENone.
+Proof.
+  revert acc b; induction fuel as [|f IH]; intros acc b Hb; cbn [read_bytes]; [congruence|].
+  destruct (read_slice (S f) delim b) as [frag e1 b1|] eqn:E; [|congruence].
+  destruct (read_slice_timeouts _ _ _ _ _ _ Hb E) as [T1 T2].
+  destruct e1; try (intros H; inversion H; subst; split; assumption).
+  intros H; apply IH in H; [|exact T2]. cbn [is_tmo] in T1. destruct H; split; [lia|assumption].
+Qed.
+
+Lemma bwrite_tmo b k : tmo (bwrite b k) = tmo b.
+Proof. reflexivity. Qed.
+Lemma nwrites_tmo k b : tmo (nwrites k b) = tmo b.
+Proof. revert b; induction k; intros b; cbn [nwrites]; [reflexivity|]. rewrite IHk; apply bwrite_tmo. Qed.
+
+Lemma dummy_loop_one_deadline fuel b :
+  b_err b = ENone -> (tmo (snd (dummy_loop fuel b)) <= tmo b + 1)%N.
+Proof.
+  revert b; induction fuel as [|f IH]; intros b Hb; cbn [dummy_loop]; [cbn; lia|].
+  destruct (read_bytes (S f) 10 [] b) as [line e b1|] eqn:E; [|cbn; lia].
+  destruct (read_bytes_timeouts _ _ _ _ _ _ _ Hb E) as [T1 T2].
+  destruct e; cbn [snd is_tmo] in *; try lia.
+  specialize (IH (bwrite b1 (nlen line))). rewrite bwrite_err, bwrite_tmo in IH. specialize (IH T2). lia.
+Qed.
+
+Lemma handle_dummy_one_deadline fuel c :
+  (m_timeouts (c_m (h_conn (handle_dummy fuel c))) <= m_timeouts (c_m c) + 1)%N.
+Proof.
+  unfold handle_dummy. pose proof (dummy_loop_one_deadline fuel (new_reader c) eq_refl) as H.
+  destruct (dummy_loop fuel (new_reader c)) as [o b]; cbn [snd h_conn] in *. exact H.
+Qed.
+
+Lemma ftp_loop_one_deadline fuel v6 dial s b :
+  b_err b = ENone -> (tmo (snd (ftp_loop fuel v6 dial s b)) <= tmo b + 1)%N.
+Proof.
+  revert s b; induction fuel as [|f IH]; intros s b Hb; cbn [ftp_loop]; [cbn; lia|].
+  destruct (read_bytes (S f) 10 [] b) as [line e b1|] eqn:E; [|cbn; lia].
+  destruct (read_bytes_timeouts _ _ _ _ _ _ _ Hb E) as [T1 T2].
+  destruct e; cbn [snd is_tmo] in *; try lia.
+  destruct (ftp_cmd v6 dial s line) as [st k].
+  assert (tmo (nwrites (N.to_nat k) b1) = tmo b1) as Hn by apply nwrites_tmo.
+  destruct st; cbn [snd]; try lia.
+  specialize (IH s0 (nwrites (N.to_nat k) b1)). rewrite nwrites_err in IH. specialize (IH T2). lia.
+Qed.
+
+Lemma handle_ftp_one_deadline v6 dial fuel c :
+  (m_timeouts (c_m (h_conn (handle_ftp v6 dial fuel c))) <= m_timeouts (c_m c) + 1)%N.
+Proof.
+  unfold handle_ftp, handle_ftp_st.
+  pose proof (ftp_loop_one_deadline fuel v6 dial ftp_init (bwrite (new_reader c) 0) eq_refl) as H.
+  destruct (ftp_loop fuel v6 dial ftp_init (bwrite (new_reader c) 0)) as [[o s] b]; cbn [snd h_conn] in *. exact H.
+Qed.
